@@ -755,7 +755,79 @@ def _receiver_is(ix, repo, ckey, recv, key):
     return False
 
 
+# ---------------------------------------------------------------------------
+# H6 no in-place update through an alias of a shared column / cached array
+# ---------------------------------------------------------------------------
+ARRAY_HINTS = ('Series', 'ndarray', 'DataFrame', 'NDArray', 'ArrayLike')
+INPLACE_PROPS = {'C10', 'C11'}
+
+
+def _array_containers(fn):
+    """names of `fn` whose elements are pandas / numpy objects: parameters annotated so, and locals built from columns of such a parameter"""
+    a = fn.args
+    out = {p.arg for p in a.posonlyargs + a.args + a.kwonlyargs if p.annotation is not None and any(h in ast.unparse(p.annotation) for h in ARRAY_HINTS)}
+    changed = True
+    while changed:
+        changed = False
+        for n in ast.walk(fn):
+            if isinstance(n, ast.Assign) and len(n.targets) == 1 and isinstance(n.targets[0], ast.Name) and n.targets[0].id not in out:
+                v = n.value
+                if isinstance(v, (ast.Dict, ast.DictComp, ast.ListComp, ast.List)) and any(isinstance(x, ast.Subscript) and isinstance(x.value, ast.Name) and x.value.id in out for x in ast.walk(v)):
+                    out.add(n.targets[0].id)
+                    changed = True
+    return out
+
+
+def inplace_alias_updates(fn):
+    """[(binding, augmented assignment, container)]:  x = C[k]  (no copy) ... x += v   with C holding pandas / numpy objects: `+=` on such an object
+    works in place, so the element of C (a column of the frame, a cached encoding) is changed for everyone who reads it afterwards"""
+    conts = _array_containers(fn)
+    if not conts:
+        return []
+    order = {}
+
+    def number(node):
+        order[id(node)] = len(order)
+        for c in ast.iter_child_nodes(node):
+            number(c)
+    number(fn)
+    binds = {}
+    for n in ast.walk(fn):
+        if isinstance(n, ast.Assign) and len(n.targets) == 1 and isinstance(n.targets[0], ast.Name):
+            binds.setdefault(n.targets[0].id, []).append(n)
+    out = []
+    for n in ast.walk(fn):
+        if isinstance(n, ast.AugAssign) and isinstance(n.target, ast.Name):
+            prev = [b for b in binds.get(n.target.id, []) if order[id(b)] < order[id(n)]]
+            if not prev:
+                continue
+            b = max(prev, key=lambda x: order[id(x)])
+            v = b.value
+            if isinstance(v, ast.Subscript) and isinstance(v.value, ast.Name) and v.value.id in conts and isinstance(v.ctx, ast.Load):
+                out.append((b, n, v.value.id))
+    return out
+
+
+def check_inplace(repo, chk, pid):
+    if pid not in INPLACE_PROPS:
+        return
+    roots = ROOTS.get(pid)
+    ix = index(repo)
+    oid = f'{pid}.H6'
+    funcs = ix.closure(roots, False)
+    n = 0
+    for key in sorted(funcs):
+        fn = ix.funcs[key]
+        for b, aug, cont in inplace_alias_updates(fn):
+            chk.bad(oid, 'R11', site(repo, key[0], key[1], aug), f'{norm(b)[:60]} ... {norm(aug)[:60]}',
+                    f'`{aug.target.id}` is the very object stored in `{cont}` (bound without a copy) and `{norm(aug)[:40]}` updates a pandas / numpy object in place: the element of `{cont}` itself changes, '
+                    'so every later reader of it (the next combination that shares the constituent, the caller\'s frame) sees the modified values')
+        n += 1
+    chk.ok(oid, 'R11', 'outrank/', 'in-place updates through an alias of a column / cached array', f'{n} function(s) on this property\'s path: no `x = C[k]; x += ..` on pandas / numpy elements', inspected=n)
+
+
 def run(repo, chk, pid):
+    check_inplace(repo, chk, pid)
     check_single_use(repo, chk, pid)
     check_config(repo, chk, pid)
     check_defaults(repo, chk, pid)
